@@ -349,19 +349,21 @@ theorem createMid_ok {env : Env} {par : Parent} {ep : Endpoint} {rq : Req} {t : 
         · contradiction
         · split at h
           · contradiction
-          · rename_i hid1
-            split at h
+          · split at h
             · contradiction
-            · rename_i hid2
+            · rename_i hid1
               split at h
               · contradiction
-              · rename_i X hX
-                refine ⟨batch, X, hb, by omega, ?_, ?_, hX, h⟩
-                · intro hne
-                  simp [hne] at hid1 hid2
-                  exact ⟨hid1, hid2⟩
-                · intro hc
-                  simpa [hc] using hns
+              · rename_i hid2
+                split at h
+                · contradiction
+                · rename_i X hX
+                  refine ⟨batch, X, hb, by omega, ?_, ?_, hX, h⟩
+                  · intro hne
+                    simp [hne] at hid1 hid2
+                    exact ⟨hid1, hid2⟩
+                  · intro hc
+                    simpa [hc] using hns
 
 
 
